@@ -163,7 +163,12 @@ def gen_dispatchers():
     for disp, fr in (("ParseTCPResponse", "TCP"), ("ParseRTUResponse", "RTU"), ("ParseRTUResponseWithCRC", "RTU")):
         o = 6 if fr == "TCP" else 0
         crc = disp.endswith("WithCRC")
-        cl = ["safety[C10]", "noOverread[C10]", "modifies[C10,C13] nothing", "ensures[C10,C02] err != nil ==> nilish(res)"]
+        cl = ["safety[C10]", "noOverread[C10]", "modifies[C10,C13] nothing"]
+        for name, fc, kind, lf, minbc in RESP:
+            if kind in ("bytes", "regs"):
+                T = f"{name}Response{fr}"
+                cl.append(f"alias res.(*{T}).Data := data[{o+3}:{o+3}+int(data[{o+2}])] if err == nil && data[{o+1}] == {fc}")
+        cl.append("ensures[C10,C02] err != nil ==> nilish(res)")
         if crc:
             cl.append("ensures[C03,C12] len(data) >= 4 && !crcTrailer(data, len(data)) ==> err == ErrInvalidCRC && nilish(res)")
             cl.append("ensures[C03,C12] len(data) < 4 ==> err != nil && err != ErrInvalidCRC && dyntype(err) != *ErrorResponseRTU")
